@@ -216,6 +216,9 @@ func (c *smtCtx) sortOf(t types.Type) Sort {
 		if _, _, ok := intTypeParam(u); ok {
 			return "Int"
 		}
+		if ct := coreTypeOf(u); ct != nil {
+			return c.sortOf(ct)
+		}
 		return "TVal"
 	case *types.Basic:
 		switch {
@@ -547,6 +550,30 @@ func intTypeParam(tp *types.TypeParam) (allSigned, allUnsigned, ok bool) {
 		return false, false, false
 	}
 	return allSigned, allUnsigned, true
+}
+
+// coreTypeOf returns the single non-interface type in the type set of tp's constraint (e.g. *T for
+// `interface{ *T; M() }`), or nil.
+func coreTypeOf(tp *types.TypeParam) types.Type {
+	iface, ok := tp.Constraint().Underlying().(*types.Interface)
+	if !ok {
+		return nil
+	}
+	var found types.Type
+	for i := 0; i < iface.NumEmbeddeds(); i++ {
+		et := types.Unalias(iface.EmbeddedType(i))
+		if _, isI := et.Underlying().(*types.Interface); isI {
+			continue
+		}
+		if _, isU := et.(*types.Union); isU {
+			return nil
+		}
+		if found != nil {
+			return nil
+		}
+		found = et
+	}
+	return found
 }
 
 // tpBitsName is the SMT constant holding the bit width of an integer type parameter.
